@@ -56,14 +56,49 @@ fn serde_eq(a: &serde_json::Value, b: &serde_json::Value) -> bool {
             // rounded: accept one ulp here; exactness of the text is judged by the Lean strict
             // parser on the byte-identical text (tostr correspondence) and by parse_value below
             if x.is_f64() && y.is_f64() {
+                // (serde_json's reader can be several ulps off for large exponents: this comparison
+                // is structural; every float text is checked exactly by `floats_exact`)
                 let (p, q) = (x.as_f64().unwrap().to_bits() as i128, y.as_f64().unwrap().to_bits() as i128);
-                return (p - q).abs() <= 1;
+                return (p - q).abs() <= 64;
             }
             false
         }
         (J::Array(x), J::Array(y)) => x.len() == y.len() && x.iter().zip(y).all(|(p, q)| serde_eq(p, q)),
         (J::Object(x), J::Object(y)) => x.len() == y.len() && x.iter().all(|(k, p)| y.get(k).map_or(false, |q| serde_eq(p, q))),
         _ => a == b,
+    }
+}
+
+/// every float literal of the text, read with std's correctly rounded `str::parse`, in text order
+pub fn float_tokens(t: &str) -> Vec<u64> {
+    let b = t.as_bytes();
+    let mut out = vec![];
+    let (mut i, mut in_str, mut esc) = (0usize, false, false);
+    while i < b.len() {
+        let c = b[i];
+        if in_str { if esc { esc = false; } else if c == b'\\' { esc = true; } else if c == b'"' { in_str = false; } i += 1; continue; }
+        if c == b'"' { in_str = true; i += 1; continue; }
+        if c == b'-' || c.is_ascii_digit() {
+            let st = i;
+            while i < b.len() && (b[i] == b'-' || b[i] == b'+' || b[i] == b'.' || b[i] == b'e' || b[i] == b'E' || b[i].is_ascii_digit()) { i += 1; }
+            let tok = &t[st..i];
+            if tok.contains('.') || tok.contains('e') || tok.contains('E') {
+                out.push(tok.parse::<f64>().map(|f| f.to_bits()).unwrap_or(u64::MAX));
+            }
+            continue;
+        }
+        i += 1;
+    }
+    out
+}
+
+/// the finite floats of a document in rendering order (arrays in order, objects in key order)
+pub fn doc_floats(v: &Value, out: &mut Vec<u64>) {
+    match v {
+        Value::Number(Number::Float64(f)) => out.push(f.to_bits()),
+        Value::Array(vs) => vs.iter().for_each(|x| doc_floats(x, out)),
+        Value::Object(o) => o.values().for_each(|x| doc_floats(x, out)),
+        _ => {}
     }
 }
 
@@ -132,6 +167,9 @@ pub fn exec(f: &[&str]) -> Option<String> {
             let want = match to_serde(&v) { Some(w) => w, None => return Some("skip".into()) };
             let s1: serde_json::Value = match serde_json::from_str(&t) { Ok(x) => x, Err(_) => return Some("compact text is not strict JSON".into()) };
             let s2: serde_json::Value = match serde_json::from_str(&tp) { Ok(x) => x, Err(_) => return Some("pretty text is not strict JSON".into()) };
+            let mut fl = vec![]; doc_floats(&v, &mut fl);
+            if float_tokens(&t) != fl { return Some("compact text: a float literal does not read back (correctly rounded) to the stored double".into()); }
+            if float_tokens(&tp) != fl { return Some("pretty text: a float literal does not read back (correctly rounded) to the stored double".into()); }
             if !serde_eq(&s1, &want) { return Some("compact text denotes another document".into()); }
             if !serde_eq(&s2, &want) { return Some("pretty text denotes another document".into()); }
             match jsonb::parse_value(t.as_bytes()) {
@@ -149,6 +187,12 @@ pub fn exec(f: &[&str]) -> Option<String> {
         // the intended meaning is part of the request
         ["jexpect", h, want] => match jsonb::parse_value(&unhex(h)?) {
             Ok(v) => { let got = show_value(&v); if got == *want { "ok".into() } else { format!("MISMATCH got {}", got) } }
+            Err(_) => "MISMATCH rejected".into(),
+        },
+        // C10: JSON text (not starting with a space) handed to from_slice must be decoded by the
+        // text fallback to the value the text denotes
+        ["fsexpect", h, want] => match jsonb::from_slice(&unhex(h)?) {
+            Ok(v) => { let got = show_value(&v); if got == *want { "ok".into() } else { format!("MISMATCH text read as {}", got) } }
             Err(_) => "MISMATCH rejected".into(),
         },
         // the text is malformed by construction: it must be rejected with an error
